@@ -3,3 +3,5 @@
 set -e
 cd "$(dirname "$0")/lean"
 lake build
+# best effort: pre-compile the quick tier's harness binaries (content-hash cache; the checks rebuild whatever is missing or stale)
+cd .. && (python3 tools/warm.py || true)
